@@ -3,6 +3,8 @@
 Every case is a request (arbitrary bytes in method, host, path, header names/values, body).  The real exporter's
 curl / httpie strings are *executed* by /bin/sh (dash) and bash with stub `curl` / `http` programs first on PATH
 (nothing else is on PATH), which dump their argv (and stdin); the raw export is parsed by the strict reference parser.
+A case exports the SAME flow object 2-3 times in a drawn order of formats: the oracle is applied to every export of the
+sequence (expectations come from a second, never-exported flow built from the case) and no export may change the flow.
 
 Oracle (statement sentence by sentence):
   * "run by a POSIX shell, executes only curl": exactly one stub invocation, its argv[0] is the curl stub, exit status 0,
@@ -83,7 +85,9 @@ class Check(PropertyCheck):
     technique = "Lean 4 proof (induction over arguments/bytes) + execution of the real exports under real shells with stub programs"
     rule = ("requests with ~60% plain and ~40% hostile material (shell metacharacters, quotes, control characters, %, "
             "backslashes, non-UTF-8 bytes; never NUL) in method, host, path, header names and values; bodies: none, text soups, "
-            "binary, non-UTF-8 charsets; export_preserve_original_ip on/off with several peer addresses. distinct = distinct "
+            "binary, non-UTF-8 charsets; export_preserve_original_ip on/off with several peer addresses; each case exports ONE flow "
+            "object 2-3 times in a drawn format order (curl/httpie/raw, with repeats) - every export is judged and must leave "
+            "the flow's get_state() unchanged. distinct = distinct "
             "request; non-trivial = at least one field contains a character outside shlex's safe set.")
     budget = {"quick": 500, "thorough": 12000}
     time_budget = {"quick": 25, "thorough": 500}
@@ -130,7 +134,8 @@ class Check(PropertyCheck):
                    "version": rng.pick(["HTTP/1.1", "HTTP/1.1", "HTTP/1.0", "HTTP/2.0"]),
                    "authority": int(rng.chance(0.2)),
                    "preserve": int(rng.chance(0.4)), "peer": rng.pick([None, "1.2.3.4", "::1", "address", "example.com"]),
-                   "set_content": int(rng.chance(0.85)), "exe": int(rng.chance(0.1))}
+                   "set_content": int(rng.chance(0.85)), "exe": int(rng.chance(0.1)),
+                   "order": rng.pick(self.ORDERS)}
 
     # ------------------------------------------------------------------ implementation
     def setup(self, tier):
@@ -222,15 +227,29 @@ class Check(PropertyCheck):
             sin = hx(open(stdin_path, "rb").read())
         return {"rc": rc, "stderr": err.decode("latin-1")[:200], "inv": inv, "parse_ok": ok, "stdin": sin, "mode": mode}
 
+    ORDERS = [["curl", "httpie", "raw"], ["curl", "raw", "httpie"], ["httpie", "curl", "raw"], ["httpie", "raw", "curl"],
+              ["raw", "curl", "httpie"], ["raw", "httpie", "curl"], ["curl", "raw"], ["httpie", "raw"], ["raw", "curl", "raw"],
+              ["curl", "curl", "raw"], ["raw", "httpie", "raw"], ["httpie", "httpie", "curl"]]
+
+    @staticmethod
+    def _order(case):
+        return case.get("order") or ["curl", "httpie", "raw"]
+
+    @staticmethod
+    def _own_clean(f):
+        """the request as `cleanup_request` is specified to see it, computed on OUR OWN copy (public API only)"""
+        rq = f.request.copy()
+        rq.decode(strict=False)
+        return rq
+
     def impl(self, case):
         from mitmproxy.addons import export
         from mitmproxy import exceptions
         tctx = self._ctx()
         tctx.options.export_preserve_original_ip = bool(case["preserve"])
-        f = self._flow(case)
+        f0 = self._flow(case)          # never exported: source of the expectations / library answers
         obs = {}
-        # library answers for the model + the request as the property sees it
-        rq = export.cleanup_request(f); export.pop_headers(rq)
+        rq = self._own_clean(f0); export.pop_headers(rq)
         try:
             t = rq.get_text(strict=True) if rq.content else None
             obs["text_hex"] = None if not rq.content else hx(t.encode("utf-8", "surrogateescape"))
@@ -239,31 +258,46 @@ class Check(PropertyCheck):
             obs["text_hex"] = "bin"
         obs["pretty_url_hex"] = hx(rq.pretty_url.encode("utf-8", "surrogateescape"))
         obs["pretty_host_hex"] = hx(rq.pretty_host.encode("utf-8", "surrogateescape"))
-        obs["orig_url_hex"] = hx(f.request.pretty_url.encode("utf-8", "surrogateescape"))
-        obs["orig_plain_url_hex"] = hx(f.request.url.encode("utf-8", "surrogateescape"))
+        obs["orig_url_hex"] = hx(f0.request.pretty_url.encode("utf-8", "surrogateescape"))
+        obs["orig_plain_url_hex"] = hx(f0.request.url.encode("utf-8", "surrogateescape"))
         # the request's method as mitmproxy's data model defines it (Request.method upper-cases the wire bytes)
-        obs["api_method_hex"] = hx(f.request.method.encode("utf-8", "surrogateescape"))
-        clean = export.cleanup_request(f)
+        obs["api_method_hex"] = hx(f0.request.method.encode("utf-8", "surrogateescape"))
+        clean = self._own_clean(f0)
         obs["clean_headers"] = [[hx(k), hx(v)] for k, v in clean.headers.fields]
         obs["clean_content_hex"] = None if clean.raw_content is None else hx(clean.raw_content)
         obs["clean_line"] = [hx(clean.data.method), hx(clean.data.scheme), hx(clean.data.authority), hx(clean.data.path), hx(clean.data.http_version)]
-        for fmt in ("curl", "httpie"):
-            try:
-                cmd = export.formats[fmt](f)
-            except exceptions.CommandError:
-                obs[fmt] = {"cmd_hex": "error"}; continue
-            script = cmd.encode("utf-8", "surrogateescape")
-            o = {"cmd_hex": hx(script)}
-            has_body = bool(rq.content)
-            for sh in SHELLS:
-                if fmt == "httpie" and sh == "sh" and has_body: continue       # `<<<` is not POSIX
-                o[sh] = self._shell(sh, script, fmt == "httpie", "exe" if case.get("exe") else "fn")
-            obs[fmt] = o
-        try:
-            raw = export.formats["raw_request"](f)
-            obs["raw_hex"] = hx(raw)
-        except (exceptions.CommandError, ValueError) as e:
-            obs["raw_hex"] = "error:" + type(e).__name__
+        has_body = bool(rq.content)
+        # the export SEQUENCE on one and the same flow object
+        f = self._flow(case)
+        seq, cache = [], {}
+        for fmt in self._order(case):
+            before = repr(f.get_state())
+            step = {"fmt": fmt}
+            if fmt in ("curl", "httpie"):
+                try:
+                    cmd = export.formats[fmt](f)
+                except exceptions.CommandError:
+                    step["o"] = {"cmd_hex": "error"}
+                else:
+                    script = cmd.encode("utf-8", "surrogateescape")
+                    key = (fmt, script)
+                    if key not in cache:
+                        o = {"cmd_hex": hx(script)}
+                        for sh in SHELLS:
+                            if fmt == "httpie" and sh == "sh" and has_body: continue       # `<<<` is not POSIX
+                            o[sh] = self._shell(sh, script, fmt == "httpie", "exe" if case.get("exe") else "fn")
+                        cache[key] = o
+                    step["o"] = cache[key]
+                obs[fmt] = step["o"]
+            else:
+                try:
+                    step["raw_hex"] = hx(export.formats["raw_request"](f))
+                except (exceptions.CommandError, ValueError) as e:
+                    step["raw_hex"] = "error:" + type(e).__name__
+                obs["raw_hex"] = step["raw_hex"]
+            step["changed"] = repr(f.get_state()) != before
+            seq.append(step)
+        obs["seq"] = seq
         return obs
 
     # ------------------------------------------------------------------ oracle
@@ -311,6 +345,19 @@ class Check(PropertyCheck):
         return content if content and unhx(obs["text_hex"]) == content else None
 
     def oracle(self, case, obs):
+        """the statement applied to EVERY export of the sequence, plus: an export does not change the flow"""
+        fails = []
+        for i, step in enumerate(obs["seq"]):
+            tag = "" if i == 0 else f" [export #{i + 1} of {'>'.join(self._order(case))} on the same flow]"
+            if step["changed"]:
+                fails.append(f"{step['fmt']}: the export changed the flow (get_state before != after){tag}")
+            rnd = {k: v for k, v in obs.items() if k not in ("curl", "httpie", "raw_hex", "seq")}
+            if step["fmt"] == "raw": rnd["raw_hex"] = step["raw_hex"]
+            else: rnd[step["fmt"]] = step["o"]
+            fails += [x + tag for x in self._oracle_one(case, rnd)]
+        return fails
+
+    def _oracle_one(self, case, obs):
         fails = []
         method = unhx(obs["api_method_hex"])
         # "that URL": the request's pretty_url (Host-header view) or its url (connection view); they differ only when the
@@ -319,6 +366,7 @@ class Check(PropertyCheck):
         exp_h = self._expected_headers(case)
         has_content = bool(obs["clean_content_hex"] and unhx(obs["clean_content_hex"]))
         for fmt in ("curl", "httpie"):
+            if fmt not in obs: continue
             o = obs[fmt]
             if o["cmd_hex"] == "error":
                 if obs["text_hex"] != "bin":
@@ -362,7 +410,7 @@ class Check(PropertyCheck):
                     want = [prog, method, argv[2] if len(argv) > 2 and argv[2] in urls else urls[0]] + [k + b": " + v for k, v in exp_h]
                     if argv != want: fails.append(f"{tag}: argv {argv[1:]!r} != {want[1:]!r}")
         # raw export
-        if self._wire_safe(case, obs):
+        if "raw_hex" in obs and self._wire_safe(case, obs):
             if obs["raw_hex"].startswith("error"):
                 fails.append("raw: export failed for a representable request: " + obs["raw_hex"])
             else:
@@ -429,7 +477,7 @@ class Check(PropertyCheck):
         from mitmproxy.addons import export
         self._ctx()
         f = self._flow(case)
-        rq = export.cleanup_request(f); export.pop_headers(rq)
+        rq = self._own_clean(f); export.pop_headers(rq)
         if not rq.content: body = "none"
         else:
             try:
@@ -438,7 +486,7 @@ class Check(PropertyCheck):
                 body = "t" + hx(t.encode("utf-8", "surrogateescape"))
             except ValueError:
                 body = "bin"
-        clean = export.cleanup_request(f)
+        clean = self._own_clean(f)
         e = lambda x: hx(x.encode("utf-8", "surrogateescape"))
         return {"body": body, "method": e(rq.method), "url": e(rq.pretty_url), "pretty_host": e(rq.pretty_host), "host": e(clean.host),
                 "hdrs": ["%s:%s" % (hx(k), hx(v)) for k, v in clean.headers.fields],
@@ -451,11 +499,10 @@ class Check(PropertyCheck):
         m = a["method"]
         hd = (" " + " ".join(a["hdrs"])) if a["hdrs"] else ""
         peer = "none" if not case["peer"] else hx(case["peer"].encode())
-        lines = [f"curl {case['preserve']} {peer} {m} {a['host']} {a['pretty_host']} {case['port']} {a['url']} {a['body']}{hd}",
-                 f"httpie {m} {a['host']} {a['url']} {a['body']}{hd}"]
-        if a["content"] is not None and not a["trailers"]:
-            lines.append("raw " + " ".join(a["line"]) + " " + a["content"] + hd)
-        return lines
+        one = {"curl": f"curl {case['preserve']} {peer} {m} {a['host']} {a['pretty_host']} {case['port']} {a['url']} {a['body']}{hd}",
+               "httpie": f"httpie {m} {a['host']} {a['url']} {a['body']}{hd}",
+               "raw": "raw " + " ".join(a["line"]) + " " + (a["content"] or "-") + hd}
+        return [one[fmt] for fmt in self._order(case)]
 
     @staticmethod
     def _show_exec(r, prog_name):
@@ -468,31 +515,25 @@ class Check(PropertyCheck):
 
     def impl_view(self, case, obs):
         out = []
-        for fmt, prog in (("curl", "curl"), ("httpie", "http")):
-            o = obs[fmt]
+        for step in obs["seq"]:
+            if step["fmt"] == "raw":
+                out.append(step["raw_hex"] if not step["raw_hex"].startswith("error") else "error")
+                continue
+            o = step["o"]; prog = "curl" if step["fmt"] == "curl" else "http"
             if o["cmd_hex"] == "error": out.append("error"); continue
             out.append({"cmd": o["cmd_hex"], "sh": self._show_exec(o.get("sh"), prog), "bash": self._show_exec(o.get("bash"), prog)})
-        if obs["clean_content_hex"] is not None:
-            out.append(obs["raw_hex"] if not obs["raw_hex"].startswith("error") else "error")
         return out
 
     def model_obs(self, case, replies):
         out = []
-        for i, rep in enumerate(replies[:2]):
+        for fmt, rep in zip(self._order(case), replies):
+            d = dict(kv.split("=", 1) for kv in rep.split(";") if "=" in kv)
+            if fmt == "raw": out.append(d.get("raw", rep)); continue
             if rep == "error" or "=" not in rep: out.append(rep); continue
-            d = dict(kv.split("=", 1) for kv in rep.split(";") if "=" in kv)
-            body_present = case["content_hex"] is not None and unhx(case["content_hex"]) != b""
             v = {"cmd": d.get("cmd"), "sh": d.get("sh"), "bash": d.get("bash")}
-            if i == 1 and v["sh"] is not None:
-                # the harness does not run a here-string under /bin/sh (syntax error there)
-                if b" <<< " in unhx(v["cmd"]): v["sh"] = None
-            if i == 0:
-                # curl: a here-string never occurs, stdin is not captured
-                pass
+            # the harness does not run a here-string under /bin/sh (syntax error there)
+            if fmt == "httpie" and v["cmd"] and b" <<< " in unhx(v["cmd"]): v["sh"] = None
             out.append(v)
-        for rep in replies[2:]:
-            d = dict(kv.split("=", 1) for kv in rep.split(";") if "=" in kv)
-            out.append(d.get("raw", rep))
         return out
 
     def classify(self, case, obs):
@@ -502,7 +543,8 @@ class Check(PropertyCheck):
         return json.dumps(case, sort_keys=True) if any(c not in safe for f in fields for c in f) else None
 
     def branches(self, case, obs):
-        out = ["curl:" + ("error" if obs["curl"]["cmd_hex"] == "error" else "ok")]
+        out = ["order:" + ">".join(self._order(case))]
+        if "curl" in obs: out.append("curl:" + ("error" if obs["curl"]["cmd_hex"] == "error" else "ok"))
         t = obs["text_hex"]
         out.append("body:" + ("none" if t is None else "binary" if t == "bin" else
                               "text-ctl" if any(c < 32 for c in unhx(t)) else "text-plain"))
